@@ -42,6 +42,10 @@ pub struct Case {
     /// also present a list from a peer that is in the routing table but not among the K closest
     #[serde(default)]
     pub far_known: bool,
+    /// at the end: a peer that WAS a replication target of node 0 leaves its routing table and then
+    /// presents a list (stale per-peer state must not stand in for "is among my closest")
+    #[serde(default)]
+    pub ex_target: bool,
 }
 
 fn content_strategy() -> impl Strategy<Value = NodeContent> {
@@ -50,8 +54,8 @@ fn content_strategy() -> impl Strategy<Value = NodeContent> {
 }
 
 fn case_strategy() -> BoxedStrategy<Case> {
-    (proptest::collection::vec(content_strategy(), 2..=vh_core::depth(3, 4)), 2u8..=(vh_core::depth(4, 6) as u8), proptest::collection::vec(any::<u16>(), 0..vh_core::depth(60, 160)), prop_oneof![3 => Just(false), 1 => Just(true)], prop_oneof![5 => Just(false), 1 => Just(true)])
-        .prop_map(|(nodes, rounds, sched, stranger, far_known)| Case { nodes, rounds, sched, stranger, far_known })
+    (proptest::collection::vec(content_strategy(), 2..=vh_core::depth(3, 4)), 2u8..=(vh_core::depth(4, 6) as u8), proptest::collection::vec(any::<u16>(), 0..vh_core::depth(60, 160)), prop_oneof![3 => Just(false), 1 => Just(true)], prop_oneof![5 => Just(false), 1 => Just(true)], prop_oneof![2 => Just(false), 1 => Just(true)])
+        .prop_map(|(nodes, rounds, sched, stranger, far_known, ex_target)| Case { nodes, rounds, sched, stranger, far_known, ex_target })
         .boxed()
 }
 
@@ -307,6 +311,39 @@ fn check(case: &Case, ctx: &mut Ctx) {
             if !known.contains(k) {
                 ctx.fail("unknown_record_appeared", format!("node {i}: {}", hex::encode(&k[..6])));
             }
+        }
+    }
+    // ---- a former replication target that has left the routing table presents a list -------------
+    if case.ex_target {
+        let x = fix::peer(777);
+        let holds_something = !cl.local_list(0).is_empty();
+        if cl.add_peer(0, x) && holds_something {
+            {
+                let d = &mut cl.nodes[0].driver;
+                cl.rt.block_on(async move {
+                    d.verif_reset_replication_throttle();
+                    let _ = d.verif_handle_local_cmd(LocalSwarmCmd::TriggerIntervalReplication);
+                });
+            }
+            cl.settle();
+            let sent_to_x = cl.wire.iter().any(|(from, to, what)| *from == 0 && to.is_none() && what.contains("Replicate"));
+            {
+                let d = &mut cl.nodes[0].driver;
+                cl.rt.block_on(async move { d.verif_remove_peer(&x) });
+            }
+            cl.settle();
+            let bait = vec![(NetworkAddress::from_record_key(&RecordKey::new(&fix::h32("c09-bait-ex", &[1]))), RecordType::Chunk), (NetworkAddress::from_record_key(&RecordKey::new(&fix::h32("c09-bait-ex", &[2]))), RecordType::Chunk)];
+            let d = &mut cl.nodes[0].driver;
+            cl.rt.block_on(async move { d.verif_on_replicate(NetworkAddress::from_peer(x), bait) });
+            cl.run_tasks();
+            cl.collect();
+            let queued = cl.nodes[0].driver.verif_fetcher_to_be_fetched().iter().chain(cl.nodes[0].driver.verif_fetcher_on_going().iter()).filter(|(_, _, h)| *h == x).count();
+            let fetch_event = cl.pending.iter().any(|a| matches!(a, Action::Event(_, ant_networking::NetworkEvent::KeysToFetchForReplication(ks)) if ks.iter().any(|(h, _)| *h == x)));
+            if queued > 0 || fetch_event {
+                ctx.fail("replication_list_from_former_neighbour_acted_upon", format!("the sender received this node's list (sent: {sent_to_x}), then left the routing table; its own list queued {queued} entries / fetch event {fetch_event}"));
+            }
+            ctx.label_if(sent_to_x, "former_replication_target_presents_a_list");
+            cl.settle();
         }
     }
     ctx.label(format!("nodes_{n}"));
